@@ -79,22 +79,23 @@ type FuncSpec struct {
 	Sites    []*SiteSpec
 	Loops    []*LoopSpec
 	// dependency-spec attributes
-	Kind     string // "", pure, nofx, mf, setmf, havocobj
-	MF       string
-	MFArgs   []Expr
-	SetMF    []GhostUpdate
-	HavocMF  []string // model fields of argument 0 that the call rewrites (new value constrained by ensures)
-	Havoc    []int    // argument indexes (receiver is 0) whose object is havoc'd
-	Effects  []string
-	Modifies []string
-	Sweep    bool
-	Returns  string
-	Frame    string   // "fresh-only": the function writes only memory it allocated itself (verified)
-	Globals  []string // package path suffixes whose init (global initialisers) runs at entry
-	Props    []string // default props for clauses of this function
-	Assumed  bool     // contract comes from the dependency library (not verified)
-	Trusted  string   // reason, if the contract is used but not verified here
-	Used     int
+	Kind       string // "", pure, nofx, mf, setmf, havocobj
+	MF         string
+	MFArgs     []Expr
+	SetMF      []GhostUpdate
+	HavocElems []int    // arguments (slices, possibly boxed in an interface) whose elements the call rewrites in place
+	HavocMF    []string // model fields of argument 0 that the call rewrites (new value constrained by ensures)
+	Havoc      []int    // argument indexes (receiver is 0) whose object is havoc'd
+	Effects    []string
+	Modifies   []string
+	Sweep      bool
+	Returns    string
+	Frame      string   // "fresh-only": the function writes only memory it allocated itself (verified)
+	Globals    []string // package path suffixes whose init (global initialisers) runs at entry
+	Props      []string // default props for clauses of this function
+	Assumed    bool     // contract comes from the dependency library (not verified)
+	Trusted    string   // reason, if the contract is used but not verified here
+	Used       int
 }
 
 type SpecDB struct {
@@ -154,7 +155,7 @@ func parseClause(rest string, fs *FuncSpec, file string, line int) (*Clause, err
 func shortHash(s string) uint32 { return hashStr(strings.Join(strings.Fields(s), " ")) % 100000 }
 
 var topKeywords = map[string]bool{"func": true, "requires": true, "ensures": true, "ghost": true, "let": true, "site": true, "loop": true,
-	"define": true, "macro": true, "kind": true, "pure": true, "nofx": true, "fresh": true, "inline": true, "mf": true, "setmf": true, "havocobj": true, "havocmf": true, "effect": true, "props": true, "sweep": true, "globals": true, "frame": true,
+	"define": true, "macro": true, "kind": true, "pure": true, "nofx": true, "fresh": true, "inline": true, "mf": true, "setmf": true, "havocobj": true, "havocelems": true, "havocmf": true, "effect": true, "props": true, "sweep": true, "globals": true, "frame": true,
 	"assert": true, "witness": true, "update": true, "bind": true, "invariant": true, "where": true, "optional": true, "trusted": true, "returns": true}
 
 // parseSpecText parses contract text. prefix is "//@" for in-repo files and "" for dependency specs.
@@ -301,6 +302,15 @@ func parseSpecText(db *SpecDB, text, file, prefix string, assumed bool) error {
 				var n int
 				fmt.Sscanf(f, "%d", &n)
 				fs.Havoc = append(fs.Havoc, n)
+			}
+		case "havocelems":
+			if fs.Kind == "" {
+				fs.Kind = "nofx"
+			}
+			for _, f := range strings.Fields(rest) {
+				var n int
+				fmt.Sscanf(f, "%d", &n)
+				fs.HavocElems = append(fs.HavocElems, n)
 			}
 		case "havocmf":
 			if fs.Kind == "" {
